@@ -73,11 +73,19 @@ __CPROVER_ensures(en[FB_APPLY] ==> (g_q_ix[2 * (ACCUM_DUE ? 1 : 0)] == g_curbin[
 #define X0(n) ((nv == 1 && periodic0) ? P_BIN2(n, T_SUB, IS_V0, IS_AVG) : IS_V0(n))
 #define CAP0(n) (IS_M0(n) || P_BIN3(n, T_MUL, L_M1, IS_M0))
 #define CAP1(n) (IS_M1(n) || P_BIN3(n, T_MUL, L_M1, IS_M1))
+extern int g_wx;
 int k_calc_biasing_force(_Bool *en, size_t nv, _Bool periodic0, _Bool cap_force)
 __CPROVER_requires(__CPROVER_is_fresh(en, NFB * sizeof(_Bool)) && nv >= 1 && nv <= 2 && g_tn == 0 && g_nvvs == 0 && g_avg >= -1.0e100 && g_avg <= 1.0e100)
 __CPROVER_assigns(__CPROVER_object_whole(e_i), __CPROVER_object_whole(g_node), TERM_FRAME, g_nvvs)
 __CPROVER_ensures(__CPROVER_return_value == 0 && g_nvvs == 1)
 __CPROVER_ensures(!cap_force ==> (X0(g_node[10]) && (nv < 2 || IS_V1(g_node[11]))))
 __CPROVER_ensures(cap_force ==> ((X0(g_node[10]) || CAP0(g_node[10])) && (nv < 2 || IS_V1(g_node[11]) || CAP1(g_node[11]))))
+/* a capped force keeps the sign of the uncapped one: +maxForce for a positive force, -maxForce otherwise (g_wx: ghost witness for the uncapped force of variable 0) */
+#define NEGCAP0(n) P_BIN3(n, T_MUL, L_M1, IS_M0)
+#define NEGCAP1(n) P_BIN3(n, T_MUL, L_M1, IS_M1)
+__CPROVER_ensures((cap_force && X0(g_wx) && IS_M0(g_node[10]) && !X0(g_node[10])) ==> g_tv[g_wx] > 0.0)
+__CPROVER_ensures((cap_force && X0(g_wx) && NEGCAP0(g_node[10])) ==> !(g_tv[g_wx] > 0.0))
+__CPROVER_ensures((cap_force && nv == 2 && IS_M1(g_node[11]) && !IS_V1(g_node[11])) ==> g_tv[g_node[1]] > 0.0)
+__CPROVER_ensures((cap_force && nv == 2 && NEGCAP1(g_node[11])) ==> !(g_tv[g_node[1]] > 0.0))
 ;
 #endif
